@@ -84,16 +84,17 @@ Proof.
   split; congruence.
 Qed.
 
-Theorem roundtrip_sem sy lines :
-  sys_ok_weak sy = true -> NoDup (declared sy) -> sys_fits sy = true ->
+Theorem roundtrip_sem_v v sy lines :
+  sys_ok_weak sy = true -> (is_fix v = true -> props_1bit sy = true) ->
+  NoDup (declared sy) -> sys_fits sy = true ->
   serialize sy = POk lines -> N.of_nat (List.length lines) <= U32MAX ->
-  exists sy' tau pull, parse_lines true lines = POk sy' /\ rt_agrees sy sy' tau pull.
+  exists sy' tau pull, parse_lines_v v true lines = POk sy' /\ rt_agrees sy sy' tau pull.
 Proof.
-  intros Hok Hnd Hfit Hser Hlen.
-  destruct (serialize_parse_raw sy lines Hok Hnd Hfit Hser Hlen) as (m & ps & Hm & Hrun & Hin & Hst & Hout & Hbad & Hcon).
+  intros Hok H1bit Hnd Hfit Hser Hlen.
+  destruct (serialize_parse_raw v sy lines Hok H1bit Hnd Hfit Hser Hlen) as (m & ps & Hm & Hrun & Hin & Hst & Hout & Hbad & Hcon).
   set (ren := renames_of ps).
   exists (demote (rename_sys ren (sys_of_pstate ps))), (the_tau ren m), (the_pull ren m).
-  split. { unfold parse_lines, parse_raw. rewrite Hrun. reflexivity. }
+  split. { unfold parse_lines_v, parse_raw_v. rewrite Hrun. reflexivity. }
   unfold sys_ok_weak in Hok.
   apply andb_true_iff in Hok. destruct Hok as [Hok Hokc]. apply andb_true_iff in Hok. destruct Hok as [Hok Hokb].
   apply andb_true_iff in Hok. destruct Hok as [Hok Hoko]. apply andb_true_iff in Hok. destruct Hok as [Hoki Hoks].
@@ -160,4 +161,54 @@ Proof.
         - apply the_eqv; auto. apply Hl. left. reflexivity.
         - apply IH. intros e0 He0. apply Hl. right. exact He0. }
       apply Hall. exact Hokc.
+Qed.
+
+(** ** the reader variants *)
+Lemma parse_lines_v_cur dbg ls : parse_lines_v Cur dbg ls = parse_lines dbg ls.
+Proof. unfold parse_lines_v, parse_raw_v, parse_lines, parse_raw. rewrite parse_fold_v_cur. reflexivity. Qed.
+
+(** the reader without the checks of the repair series, debug and release builds *)
+Theorem roundtrip_sem sy lines :
+  sys_ok_weak sy = true -> NoDup (declared sy) -> sys_fits sy = true ->
+  serialize sy = POk lines -> N.of_nat (List.length lines) <= U32MAX ->
+  exists sy' tau pull, (forall dbg, parse_lines dbg lines = POk sy') /\ rt_agrees sy sy' tau pull.
+Proof.
+  intros Hok Hnd Hfit Hser Hlen.
+  destruct (roundtrip_sem_v Cur sy lines Hok ltac:(discriminate) Hnd Hfit Hser Hlen) as (sy' & tau & pull & Hp & Hr).
+  rewrite parse_lines_v_cur in Hp. exists sy', tau, pull. split; [|exact Hr].
+  intros [|]; [exact Hp|]. rewrite Btor2Refine.release_equals_debug; [exact Hp|]. rewrite Hp. intros k. discriminate.
+Qed.
+
+(** release builds of the repaired readers compute what debug builds compute *)
+Lemma parse_line_v_ref v st l : Btor2Refine.refines (parse_line_v v true st l) (parse_line_v v false st l).
+Proof. unfold parse_line_v. destruct (variant_pre v st l); [apply Btor2Refine.parse_line_ref|apply Btor2Refine.refines_refl]. Qed.
+
+Lemma parse_fold_v_ref v ls : forall st err, Btor2Refine.refines (parse_fold_v v true ls st err) (parse_fold_v v false ls st err).
+Proof.
+  induction ls as [|l ls IH]; intros st err; cbn [parse_fold_v]; [apply Btor2Refine.refines_refl|].
+  pose proof (parse_line_v_ref v st l) as Hl.
+  destruct (parse_line_v v true st l) as [st1| |k] eqn:E.
+  - rewrite (Hl (Btor2Refine.no_panic_ok st1)). apply IH.
+  - rewrite (Hl Btor2Refine.no_panic_err). apply IH.
+  - apply Btor2Refine.refines_panic.
+Qed.
+
+Lemma parse_lines_v_ref v ls : Btor2Refine.refines (parse_lines_v v true ls) (parse_lines_v v false ls).
+Proof.
+  unfold parse_lines_v, parse_raw_v.
+  apply Btor2Refine.refines_bind; [|intros r; apply Btor2Refine.refines_refl].
+  apply Btor2Refine.refines_bind; [apply parse_fold_v_ref|intros r; apply Btor2Refine.refines_refl].
+Qed.
+
+(** the reader of /repo ([Fix]) and the prepared [Fix2]: bad states and constraints must be Boolean *)
+Theorem roundtrip_sem_fix v sy lines :
+  is_fix v = true ->
+  sys_ok sy = true -> NoDup (declared sy) -> sys_fits sy = true ->
+  serialize sy = POk lines -> N.of_nat (List.length lines) <= U32MAX ->
+  exists sy' tau pull, (forall dbg, parse_lines_v v dbg lines = POk sy') /\ rt_agrees sy sy' tau pull.
+Proof.
+  intros Hv Hok Hnd Hfit Hser Hlen. rewrite sys_ok_split in Hok. apply andb_true_iff in Hok. destruct Hok as [Hw H1].
+  destruct (roundtrip_sem_v v sy lines Hw ltac:(intros _; exact H1) Hnd Hfit Hser Hlen) as (sy' & tau & pull & Hp & Hr).
+  exists sy', tau, pull. split; [|exact Hr].
+  intros [|]; [exact Hp|]. rewrite (parse_lines_v_ref v lines); [exact Hp|]. rewrite Hp. intros k. discriminate.
 Qed.
